@@ -311,7 +311,10 @@ Section Loop.
           match q_pop (get_q s (active s)) with
           | None => (ONormal, s)                        (* unreachable: not empty *)
           | Some ((p, cnt, sg), q') =>
-            let go :=
+            (* NOTE: written as a function of unit so that the extracted (strict) OCaml does not run the dispatch before it
+               knows whether the entry is taken (a [let go := <dispatch> in if ... then go else requeue] is evaluated eagerly
+               there: nested partial batches then cost exponential time for the same result) *)
+            let go (_ : unit) :=
               let s1 := set_q s (active s) q' in
               let s2 := emit (EDispatch (sg_id sg) (active s) (length (levels s))) s1 in
               let '(o, s3) := exec f (CProcessSignal sg 0) s2 in
@@ -320,9 +323,9 @@ Section Loop.
               | _ => (o, s3)
               end in
             match prio with
-            | None => go
+            | None => go tt
             | Some p0 =>
-              if (p =? p0)%Z then go
+              if (p =? p0)%Z then go tt
               else (* self._queue.put(entry); return None *)
                 (ONormal, emit (ERequeue (sg_id sg) (active s))
                                (set_q s (active s) (q_put_entry q' (p, cnt, sg))))
